@@ -51,8 +51,7 @@ func (g *schemaGenerator) generateRootType() error {
 	for _, name := range sortDefinitionsByName(g.schema.Definitions) {
 		def := g.schema.Definitions[name]
 
-		_, err := g.generateDeclaredType(def, newNameScope(g.caser.Identifierize(name)))
-		if err != nil {
+		if err := g.generateUnreferencedType(def, newNameScope(g.caser.Identifierize(name))); err != nil {
 			return err
 		}
 	}
@@ -66,9 +65,45 @@ func (g *schemaGenerator) generateRootType() error {
 		return nil
 	}
 
-	_, err := g.generateDeclaredType((*schemas.Type)(g.schema.ObjectAsType), newNameScope(rootTypeName))
+	return g.generateUnreferencedType((*schemas.Type)(g.schema.ObjectAsType), newNameScope(rootTypeName))
+}
 
-	return err
+// generateUnreferencedType generates a definition or the document root, which nothing refers to at
+// this point. A format type (time.Time, netip.Addr, ...) is not declared under the definition's name,
+// so nothing uses its package yet: whoever refers to the definition imports the package there.
+// Keeping the import would leave it unused when the definition is never referred to.
+func (g *schemaGenerator) generateUnreferencedType(t *schemas.Type, scope nameScope) error {
+	importCount := len(g.output.file.Package.Imports)
+
+	theType, err := g.generateDeclaredType(t, scope)
+	if err != nil {
+		return err
+	}
+
+	if pt, ok := theType.(*codegen.PointerType); ok {
+		theType = pt.Type
+	}
+
+	nt, ok := theType.(*codegen.NamedType)
+	if !ok || nt.Package == nil {
+		return nil
+	}
+
+	for _, added := range g.output.file.Package.Imports[importCount:] {
+		ofType := false
+
+		for _, i := range nt.Package.Imports {
+			ofType = ofType || i.QualifiedName == added.QualifiedName
+		}
+
+		if !ofType {
+			return nil
+		}
+	}
+
+	g.output.file.Package.Imports = g.output.file.Package.Imports[:importCount]
+
+	return nil
 }
 
 func (g *schemaGenerator) generateReferencedType(t *schemas.Type) (codegen.Type, error) {
